@@ -125,3 +125,29 @@ func waitStatus(s *Sched, tid int, ok func(string) bool) string {
 		runtime.Gosched()
 	}
 }
+
+// freeAll lets every parked goroutine run free (points no longer park) but
+// keeps the handler installed and the scheduler lock held, so the caller can
+// wait for the goroutines of this run to end before the next run starts.
+func (s *Sched) freeAll() {
+	s.mu.Lock()
+	s.free = true
+	for _, p := range s.parts {
+		if p.state == psParked {
+			p.state = psRunning
+			close(p.release)
+		}
+	}
+	s.mu.Unlock()
+}
+
+// waitClientsGone waits until each of the first n participants has finished
+// or is blocked on the code's own synchronisation for good.
+func waitClientsGone(s *Sched, n int) {
+	for t := 0; t < n; t++ {
+		if s.Status(t) == "idle" {
+			continue
+		}
+		stillBlocked(s, t)
+	}
+}
